@@ -59,12 +59,29 @@ theorem distConds_eval (ivs : Option (List (Int × Int))) (e s : Term) (ρ : Env
       refine ⟨_, List.mem_map.2 ⟨iv, hiv, rfl⟩, ?_⟩
       simp [Fml.eval, Fml.evalAll, Term.eval, numT, h1, h2, h3, h4]
 
+/-- total time `[s, e]` spends inside the listed windows -/
+def overlapSum (s e : Int) (ivs : List (Int × Int)) : Int := (ivs.map (fun iv => overlapLen s e iv.1 iv.2)).sum
+
+/-- ResourceInterrupted, for one busy interval `[s, e]` of task `t`: a fixed-duration (or zero-duration) task
+    overlaps no window; a variable-duration task neither starts nor ends strictly inside a window and its
+    duration is at least its minimum plus the time spent inside the windows (and, the busy interval being
+    a real interval, at most its maximum plus that time) -/
+def InterruptedOK (ρ : Env) (s e : Int) (t : Task) (ivs : List (Int × Int)) : Prop :=
+  match t.kind with
+  | .var minD maxD _ =>
+      (∀ iv ∈ ivs, (s ≤ iv.1 ∨ iv.2 ≤ s) ∧ (e ≤ iv.1 ∨ iv.2 ≤ e)) ∧
+      minD + overlapSum s e ivs ≤ ρ.i (.tDur t.name) ∧
+      (s ≤ e → ∀ m, maxD = some m → ρ.i (.tDur t.name) ≤ m + overlapSum s e ivs)
+  | _ => ∀ iv ∈ ivs, iv.2 ≤ s ∨ e ≤ iv.1
+
 /-- the documented meaning of each resource-constraint class -/
 def ResMeaning (ρ : Env) : CBody → Prop
   | .unavailable busy ivs => ∀ b ∈ busy, ∀ iv ∈ ivs, iv.2 ≤ b.sV ρ ∨ b.eV ρ ≤ iv.1
   | .workload busy ivs kind => ∀ iv ∈ ivs, cmpHolds kind (busyInside ρ busy iv.1.1 iv.1.2) iv.2
   | .nonDelay busy => GapsOK ρ busy (fun e s => 0 ≤ e → 0 ≤ s → s = e)
   | .distance busy d ivs mode => GapsOK ρ busy (fun e s => DistCond ivs e s → cmpHolds mode (s - e) d)
+  | .interrupted ws ivs => (∀ iv ∈ ivs, iv.1 < iv.2) →
+      ∀ w ∈ ws, ∀ bt ∈ w, InterruptedOK ρ (bt.1.sV ρ) (bt.1.eV ρ) bt.2 ivs
   | .sameWorkers s1 s2 => ∀ w ∈ s1.workers, w ∈ s2.workers → (ρ.b (.sel s1.id w) = ρ.b (.sel s2.id w))
   | .distinctWorkers s1 s2 => ∀ w ∈ s1.workers, w ∈ s2.workers → ¬ (ρ.b (.sel s1.id w) = true ∧ ρ.b (.sel s2.id w) = true)
   | _ => True
@@ -130,6 +147,87 @@ theorem busy_map_e (busy : List BusyRef) (ρ : Env) :
     (busy.map (·.e)).map (fun t => t.eval ρ) = busy.map (fun b => b.eV ρ) := by
   simp [List.map_map, Function.comp_def, BusyRef.e, bE, Term.eval, BusyRef.eV]
 
+/-- the overlap term of `ResourceInterrupted` for one window is the time spent inside it -/
+theorem interrupted_term (s e lo hi : Int) (hlt : lo < hi) (hs : s ≤ lo ∨ hi ≤ s) (he : e ≤ lo ∨ hi ≤ e) :
+    overlapLen s e lo hi ≤ (if ¬ ¬ (hi ≤ s ↔ e ≤ lo) then hi - lo else 0) ∧
+    (s ≤ e → (if ¬ ¬ (hi ≤ s ↔ e ≤ lo) then hi - lo else 0) = overlapLen s e lo hi) := by
+  unfold overlapLen
+  by_cases h1 : hi ≤ s <;> by_cases h2 : e ≤ lo <;> simp only [h1, h2, not_true, not_false_iff, if_true, if_false,
+    iff_true, iff_false] <;> omega
+
+theorem interrupted_sum (ρ : Env) (b : BusyRef) :
+    ∀ (ivs : List (Int × Int)), (∀ iv ∈ ivs, iv.1 < iv.2) →
+      (∀ iv ∈ ivs, (b.sV ρ ≤ iv.1 ∨ iv.2 ≤ b.sV ρ) ∧ (b.eV ρ ≤ iv.1 ∨ iv.2 ≤ b.eV ρ)) →
+      overlapSum (b.sV ρ) (b.eV ρ) ivs ≤ Term.evalSum ρ (ivs.map (fun iv =>
+        Term.ite (.not (.xor (.ge b.s (numT iv.2)) (.le b.e (numT iv.1)))) (numT (iv.2 - iv.1)) (numT 0))) ∧
+      (b.sV ρ ≤ b.eV ρ → Term.evalSum ρ (ivs.map (fun iv =>
+        Term.ite (.not (.xor (.ge b.s (numT iv.2)) (.le b.e (numT iv.1)))) (numT (iv.2 - iv.1)) (numT 0))) =
+        overlapSum (b.sV ρ) (b.eV ρ) ivs) := by
+  intro ivs
+  induction ivs with
+  | nil => intro _ _; simp [overlapSum, Term.evalSum]
+  | cons iv rest ih =>
+      intro hwf hend
+      have hr := ih (fun x hx => hwf x (List.mem_cons_of_mem _ hx)) (fun x hx => hend x (List.mem_cons_of_mem _ hx))
+      have ht := interrupted_term (b.sV ρ) (b.eV ρ) iv.1 iv.2 (hwf iv (List.mem_cons_self ..))
+        (hend iv (List.mem_cons_self ..)).1 (hend iv (List.mem_cons_self ..)).2
+      have hs : b.s.eval ρ = b.sV ρ := rfl
+      have he : b.e.eval ρ = b.eV ρ := rfl
+      simp only [List.map_cons, Term.evalSum, overlapSum, List.sum_cons, Term.eval, Fml.eval, numT, hs, he]
+      simp only [overlapSum, numT] at hr
+      constructor
+      · have := ht.1; have := hr.1; omega
+      · intro hle; rw [ht.2 hle, hr.2 hle]
+
+/-- **C04 (ResourceInterrupted), one busy interval.** -/
+theorem interruptedOne_sound (b : BusyRef) (t : Task) (ivs : List (Int × Int)) (ρ : Env)
+    (hwf : ∀ iv ∈ ivs, iv.1 < iv.2) (h : Sat ρ (interruptedOne b t ivs)) :
+    InterruptedOK ρ (b.sV ρ) (b.eV ρ) t ivs := by
+  have hs : b.s.eval ρ = b.sV ρ := rfl
+  have he : b.e.eval ρ = b.eV ρ := rfl
+  unfold interruptedOne at h
+  unfold InterruptedOK
+  cases hk : t.kind with
+  | var minD maxD al =>
+      simp only [hk] at h ⊢
+      rw [Sat.append, Sat.append] at h
+      obtain ⟨⟨hend, hmin⟩, hmax⟩ := h
+      have hends : ∀ iv ∈ ivs, (b.sV ρ ≤ iv.1 ∨ iv.2 ≤ b.sV ρ) ∧ (b.eV ρ ≤ iv.1 ∨ iv.2 ≤ b.eV ρ) := by
+        intro iv hiv
+        have h1 := hend (Fml.xor (.le b.s (numT iv.1)) (.ge b.s (numT iv.2))) (by
+          simp only [List.mem_flatMap]; exact ⟨iv, hiv, List.mem_cons_self ..⟩)
+        have h2 := hend (Fml.xor (.le b.e (numT iv.1)) (.ge b.e (numT iv.2))) (by
+          simp only [List.mem_flatMap]; exact ⟨iv, hiv, List.mem_cons_of_mem _ (List.mem_cons_self ..)⟩)
+        simp only [Fml.eval, Term.eval, numT, hs, he] at h1 h2
+        constructor
+        · by_contra hc; push_neg at hc; exact h1 ⟨fun a => absurd a (by omega), fun a => absurd a (by omega)⟩
+        · by_contra hc; push_neg at hc; exact h2 ⟨fun a => absurd a (by omega), fun a => absurd a (by omega)⟩
+      have hsum := interrupted_sum ρ b ivs hwf hends
+      simp only [numT] at hsum
+      have hmin' := hmin _ (List.mem_cons_self ..)
+      simp only [Fml.eval, Term.eval, numT, Task.dVar] at hmin'
+      refine ⟨hends, by have := hsum.1; omega, ?_⟩
+      intro hle m hm
+      subst hm
+      have hmax' := hmax _ (List.mem_cons_self ..)
+      simp only [Fml.eval, Term.eval, numT, Task.dVar] at hmax'
+      rw [hsum.2 hle] at hmax'
+      exact hmax'
+  | fixed d =>
+      simp only [hk] at h ⊢
+      intro iv hiv
+      have h1 := h _ (List.mem_map.2 ⟨iv, hiv, rfl⟩)
+      simp only [Fml.eval, Term.eval, numT, hs, he] at h1
+      by_contra hc; push_neg at hc
+      exact h1 ⟨fun a => absurd a (by omega), fun a => absurd a (by omega)⟩
+  | zero =>
+      simp only [hk] at h ⊢
+      intro iv hiv
+      have h1 := h _ (List.mem_map.2 ⟨iv, hiv, rfl⟩)
+      simp only [Fml.eval, Term.eval, numT, hs, he] at h1
+      by_contra hc; push_neg at hc
+      exact h1 ⟨fun a => absurd a (by omega), fun a => absurd a (by omega)⟩
+
 /-- **C04 (per class).** The raw assertions of a resource constraint imply its documented meaning. -/
 theorem C04_raw_sound (c : Nat) (b : CBody) (ρ : Env) (h : Sat ρ (b.raw c)) : ResMeaning ρ b := by
   cases b <;> simp only [ResMeaning] <;> try trivial
@@ -169,6 +267,15 @@ theorem C04_raw_sound (c : Nat) (b : CBody) (ρ : Env) (h : Sat ρ (b.raw c)) : 
       (by simpa [CBody.raw] using h)
     rw [busy_map_s, busy_map_e] at hg
     exact ⟨hg.1, hg.2.1, fun i hi => hg.2.2 i (by simpa using hi)⟩
+  case interrupted ws ivs =>
+    intro hwf w hw bt hbt
+    have hall := h (Fml.and (w.flatMap (fun (b, t) => interruptedOne b t ivs))) (by
+      simp only [CBody.raw, List.mem_map]; exact ⟨w, hw, rfl⟩)
+    simp only [Fml.eval] at hall
+    rw [evalAll_eq_Sat] at hall
+    apply interruptedOne_sound bt.1 bt.2 ivs ρ hwf
+    intro a ha
+    exact hall a (List.mem_flatMap.2 ⟨bt, hbt, ha⟩)
   case sameWorkers s1 s2 =>
     intro w hw1 hw2
     have := h (Fml.iff (.bvar (.sel s1.id w)) (.bvar (.sel s2.id w))) (by
